@@ -15,8 +15,14 @@ from .gen import build_attr_value, tag_function
 from .ref.attrs import AttrModel
 
 
+def _bv(v):
+    if v.get("t") == "html" and v.get("shared"):
+        return shared_html(v["s"])
+    return build_attr_value(v)
+
+
 def _d(pairs, kind="dict"):
-    d = {k: build_attr_value(v) for k, v in pairs}
+    d = {k: _bv(v) for k, v in pairs}
     if kind == "ordereddict":
         import collections
 
@@ -37,7 +43,37 @@ def _dup_free(pairs):
     return list(out.items())
 
 
+SHARED_HTML = {}   # HTML() constants used by many elements; nothing may ever change them
+
+
+def shared_html(text):
+    if text not in SHARED_HTML:
+        SHARED_HTML[text] = ht.HTML(text)
+    return SHARED_HTML[text]
+
+
+def shared_html_intact():
+    return [t for t, h in SHARED_HTML.items() if h.data != t]
+
+
+def failing_attribute_calls(which=None):
+    """An attribute-supplying call that is refused; whatever it had collected before failing must not reach any later
+    element.  (One call at a time: a second element created here would absorb what the first one left behind.)"""
+    calls = (lambda: ht.Tag("x", {"leak-a": "1", "leak-b": "2"}, {"leak-c": ["not", "a", "value"]}),
+             lambda: ht.Tag("x", {"leak-d": "1", 5: "non-string name"}),
+             lambda: ht.Tag("x", leak_e="1", leak_f=object()),
+             lambda: ht.Tag("x", {"leak-g": "1", "leak-h": "2"}, **{"leak-i": {"nested": "dict"}}),
+             lambda: ht.Tag("x", {"leak-j": "1"}, {None: "none as a name"}))
+    k = (which if which is not None else len(SHARED_HTML)) % len(calls)
+    try:
+        calls[k]()
+    except Exception:
+        pass
+
+
 def run_case(case, step_hook=None):
+    if case.get("after_failures"):
+        failing_attribute_calls(case["after_failures"] if isinstance(case["after_failures"], int) else None)
     name = case["name"]
     c = case["ctor"]
     model = AttrModel()
@@ -61,10 +97,10 @@ def run_case(case, step_hook=None):
             tag.attrs.update(*[_d(d) for d in dicts], **_d(kw))
             model.update(dicts, kw)
         elif o == "setitem":
-            tag.attrs[op["name"]] = build_attr_value(op["v"])
+            tag.attrs[op["name"]] = _bv(op["v"])
             model.setitem(op["name"], op["v"])
         elif o == "add_class":
-            r = tag.add_class(build_attr_value(op["v"]), prepend=op.get("prepend", False))
+            r = tag.add_class(_bv(op["v"]), prepend=op.get("prepend", False))
             assert r is tag
             model.add_token_attr("class", op["v"], op.get("prepend", False))
         elif o == "remove_class":
@@ -84,7 +120,7 @@ def run_case(case, step_hook=None):
                     else:
                         model.pop("class")
         elif o == "add_style":
-            r = tag.add_style(build_attr_value(op["v"]), prepend=op.get("prepend", False))
+            r = tag.add_style(_bv(op["v"]), prepend=op.get("prepend", False))
             assert r is tag
             model.add_token_attr("style", op["v"], op.get("prepend", False))
         else:
